@@ -72,7 +72,8 @@ try:
                              'wall_s': round(time.time() - t0, 1), 'output': lines[:8]}
         shutil.copytree(evbak, '/verif/evidence', dirs_exist_ok=True)
         shutil.rmtree(evbak, ignore_errors=True)
-    shutil.rmtree('/verif/replays', ignore_errors=True)
+    if not os.environ.get('SEED_PARALLEL'):
+        shutil.rmtree('/verif/replays', ignore_errors=True)
     dst = os.path.join('/verif/seeded', name)
     os.makedirs(dst, exist_ok=True)
     for f in ('patch.diff', 'demo.py', 'notes.md'):
